@@ -1,5 +1,6 @@
 import NbioVerif.Lemmas.C08Meta
 import NbioVerif.Lemmas.C08Glue
+import NbioVerif.Lemmas.C08Engine
 /-! C08: parser robustness and bounds (model level).
 
 * `c08_no_hang`        the Go-shaped index loop never runs out of fuel (fuel = |buf|+1), i.e. the
@@ -15,6 +16,11 @@ import NbioVerif.Lemmas.C08Glue
 * `c08_no_nil_deref`   the callbacks `Parse` makes can always be consumed by the real processors' logic: no callback
                        is made while the request/response it writes to does not exist (a nil dereference inside a
                        callback would be a panic inside `Parse`)
+* engine level (`Model/HttpEngine.lean`, the four readers of nbhttp/engine.go): `c08_engine_nonblocking`,
+  `c08_engine_blocking`, `c08_engine_tls_nonblocking`, `c08_engine_tls_blocking` — for every read sequence (and TLS-layer
+  output) all parser events precede the closing observations, the connection / parser / OnClose are closed / run at
+  most once (exactly once once sealed), and a sealed reader ignores everything the transport delivers afterwards;
+  `c08_engine_error_seals_*` — a failing `Parse` seals the reader in the same step
 * `c08_silent_after_close` once the engine glue has closed the parser (`CloseAndClean` on error), no Parse call
                        emits an event
 -/
@@ -197,3 +203,95 @@ example : (endOfHeaders { st := .headerKeyBefore, cl := [str "3", str "4"] }).is
 example : (endOfHeaders { st := .headerKeyBefore, cl := [str "3 ", str "3"] }).isOk = true := by decide
 
 end Http
+
+namespace HttpEngine
+open Scan
+variable {σ ε : Type}
+
+/-- **C08, engine level, non-blocking (`DataHandler`).** For every machine, limit, initial state and sequence of read
+    results: all parser events precede the closing observations; the connection is closed at most once and
+    `CloseAndClean`/`_onClose` run at most once (exactly once after a parse or read error); and once the reader is
+    sealed — which a failing `Parse` does in the same step (`c08_engine_error_seals_nonblocking`) — nothing the transport
+    delivers afterwards changes the trace: no further event, no second close. -/
+theorem c08_engine_nonblocking (M : Machine σ ε) (limit : Nat) (st0 : σ) (rs more : List ReadRes) :
+    let c := runNB M limit (fresh st0) rs
+    EvsThenClosings c.trace ∧
+    List.countP Obs.isConnClose c.trace ≤ 1 ∧ List.countP Obs.isParserClose c.trace ≤ 1 ∧
+    List.countP Obs.isOnClose c.trace ≤ 1 ∧
+    (sealNB c = true → List.countP Obs.isParserClose c.trace = 1 ∧ List.countP Obs.isOnClose c.trace = 1 ∧
+      runNB M limit (fresh st0) (rs ++ more) = c) := by
+  intro c
+  have hI : Inv sealNB closingsNB c := runNB_inv M limit rs _ (fresh_inv _ _ st0 rfl)
+  obtain ⟨a, b, c', d, e⟩ := inv_trace sealNB closingsNB closingsNB_ok c hI
+  refine ⟨a, b, c', d, fun hs => ⟨(e hs).1, (e hs).2, ?_⟩⟩
+  show runNB M limit (fresh st0) (rs ++ more) = runNB M limit (fresh st0) rs
+  simp only [runNB, List.foldl_append]
+  exact runNB_sealed M limit more _ hs
+
+theorem c08_engine_error_seals_nonblocking (M : Machine σ ε) (limit : Nat) (c : Conn σ ε) (d : Bytes)
+    (ho : sealNB c = false) (he : (feed M limit c d).2 = true) : sealNB (stepNB M limit c (.data d)) = true :=
+  stepNB_error_seals M limit c d ho he
+
+/-- **C08, engine level, blocking (`readConnBlocking`).** Same statement for the blocking read loop: after a parse
+    error (`conn.Close()`, then the deferred `CloseAndClean`, `_onClose`) or a read error the goroutine has returned. -/
+theorem c08_engine_blocking (M : Machine σ ε) (limit : Nat) (st0 : σ) (rs more : List ReadRes) :
+    let c := runB M limit (fresh st0) rs
+    EvsThenClosings c.trace ∧
+    List.countP Obs.isConnClose c.trace ≤ 1 ∧ List.countP Obs.isParserClose c.trace ≤ 1 ∧
+    List.countP Obs.isOnClose c.trace ≤ 1 ∧
+    (sealB c = true → List.countP Obs.isParserClose c.trace = 1 ∧ List.countP Obs.isOnClose c.trace = 1 ∧
+      runB M limit (fresh st0) (rs ++ more) = c) := by
+  intro c
+  have hI : Inv sealB closingsB c := runB_inv M limit rs _ (fresh_inv _ _ st0 rfl)
+  obtain ⟨a, b, c', d, e⟩ := inv_trace sealB closingsB closingsB_ok c hI
+  refine ⟨a, b, c', d, fun hs => ⟨(e hs).1, (e hs).2, ?_⟩⟩
+  show runB M limit (fresh st0) (rs ++ more) = runB M limit (fresh st0) rs
+  simp only [runB, List.foldl_append]
+  exact runB_sealed M limit more _ hs
+
+theorem c08_engine_error_seals_blocking (M : Machine σ ε) (limit : Nat) (c : Conn σ ε) (d : Bytes)
+    (ho : sealB c = false) (he : (feed M limit c d).2 = true) : sealB (stepB M limit c (.data d)) = true :=
+  stepB_error_seals M limit c d ho he
+
+/-- **C08, engine level, TLS non-blocking (`TLSDataHandler`).** For every sequence of raw reads and, per read, every
+    sequence of `AppendAndRead` results (plaintext, error flag). -/
+theorem c08_engine_tls_nonblocking (M : Machine σ ε) (limit : Nat) (st0 : σ) (rs more : List (ReadRes × List TlsOut)) :
+    let c := runTlsNB M limit (fresh st0) rs
+    EvsThenClosings c.trace ∧
+    List.countP Obs.isConnClose c.trace ≤ 1 ∧ List.countP Obs.isParserClose c.trace ≤ 1 ∧
+    List.countP Obs.isOnClose c.trace ≤ 1 ∧
+    (sealNB c = true → List.countP Obs.isParserClose c.trace = 1 ∧ List.countP Obs.isOnClose c.trace = 1 ∧
+      runTlsNB M limit (fresh st0) (rs ++ more) = c) := by
+  intro c
+  have hI : Inv sealNB closingsNB c := runTlsNB_inv M limit rs _ (fresh_inv _ _ st0 rfl)
+  obtain ⟨a, b, c', d, e⟩ := inv_trace sealNB closingsNB closingsNB_ok c hI
+  refine ⟨a, b, c', d, fun hs => ⟨(e hs).1, (e hs).2, ?_⟩⟩
+  show runTlsNB M limit (fresh st0) (rs ++ more) = runTlsNB M limit (fresh st0) rs
+  simp only [runTlsNB, List.foldl_append]
+  exact runTlsNB_sealed M limit more _ hs
+
+/-- **C08, engine level, TLS blocking (`readTLSConnBlocking`).** -/
+theorem c08_engine_tls_blocking (M : Machine σ ε) (limit : Nat) (st0 : σ) (rs more : List (ReadRes × List TlsOut)) :
+    let c := runTlsB M limit (fresh st0) rs
+    EvsThenClosings c.trace ∧
+    List.countP Obs.isConnClose c.trace ≤ 1 ∧ List.countP Obs.isParserClose c.trace ≤ 1 ∧
+    List.countP Obs.isOnClose c.trace ≤ 1 ∧
+    (sealB c = true → List.countP Obs.isParserClose c.trace = 1 ∧ List.countP Obs.isOnClose c.trace = 1 ∧
+      runTlsB M limit (fresh st0) (rs ++ more) = c) := by
+  intro c
+  have hI : Inv sealB closingsTlsB c := runTlsB_inv M limit rs _ (fresh_inv _ _ st0 rfl)
+  obtain ⟨a, b, c', d, e⟩ := inv_trace sealB closingsTlsB closingsTlsB_ok c hI
+  refine ⟨a, b, c', d, fun hs => ⟨(e hs).1, (e hs).2, ?_⟩⟩
+  show runTlsB M limit (fresh st0) (rs ++ more) = runTlsB M limit (fresh st0) rs
+  simp only [runTlsB, List.foldl_append]
+  exact runTlsB_sealed M limit more _ hs
+
+/-- non-vacuity: a malformed request followed by a valid one, in two reads, on the real state table: the valid
+    request's events never appear, one connClose, in both plain modes -/
+example :
+    let rs := [ReadRes.data [1], ReadRes.data (Http.str "GET / HTTP/1.1\r\n\r\n")]
+    (runNB (Http.machine Http.g0) 0 (fresh (Http.init Http.g0)) rs).trace = [.connClose, .parserClose, .onClose] ∧
+    (runB (Http.machine Http.g0) 0 (fresh (Http.init Http.g0)) rs).trace = [.connClose, .parserClose, .onClose] := by
+  decide
+
+end HttpEngine
